@@ -212,6 +212,69 @@ def correspond(ctx):
             nbad += 1
             ctx.violation("%s:%r|%r|%r|%r" % (k, g1, g2, s1, s2), "g1=%r g2=%r s1=%r s2=%r: %s" % (g1, g2, s1, s2, what),
                           {"kind": "pair", "g1": g1, "g2": g2, "env": env, "s1": s1, "s2": s2})
+    # (iv) a name set on an element reports everything that element matched: when the element alone returns two or more tokens,
+    # the named value is the list of exactly those tokens (one token: that token, or the one-element list for list-saving elements)
+    import pyparsing as pp
+    nn = 0
+    for i in range(300 if not ctx.thorough else 3000):
+        g = gen.rand_grammar(rng, rng.randint(1, 4), dict(names=False, actions=False, stops=False, fwd=True, extra=True, ws=False))
+        if rng.random() < 0.5:
+            a_, b_ = gen.rand_grammar(rng, 2, dict(names=False, fwd=False)), gen.rand_grammar(rng, 1, dict(names=False, fwd=False))
+            g = (rng.choice(["mf", "or"]), ("and", a_, b_), b_) if rng.random() < 0.5 else (rng.choice(["mf", "or"]), b_, ("and", b_, a_))
+        env = gen.ENV0
+        for s_ in sorted({gen.sample_input(rng, g, env) for _ in range(3)}):
+            def one():
+                # the element is compared with a NAMED COPY of itself, so the reference is a plain copy() as well (whether a copy parses
+                # like its original is C12's concern: F-12b)
+                e0 = build.Builder(env).build_all(g).copy()
+                r0 = parse_ok(e0, s_)
+                if r0 is None:
+                    return None
+                T = r0.as_list()
+                e1 = build.Builder(env).build_all(("name", "q", g))
+                r1 = parse_ok(e1, s_)
+                if r1 is None:
+                    return ("named-fails", T, None)
+                if g[0] == "located":
+                    return None           # Located groups its three tokens when it carries a name (documented)
+                if "q" not in r1:
+                    return ("absent", T, None) if len(T) >= 1 and T != [""] and all(t != "" for t in T) and False else None
+                v = r1["q"]
+                v = v.as_list() if isinstance(v, pp.ParseResults) else v
+                if len(T) >= 2 and v != T:
+                    return ("multi", T, v)
+                if len(T) == 1 and v != T[0] and v != T:
+                    return ("single", T, v)
+                return ("ok", T, v)
+            try:
+                res = guarded(one, 2.0)
+            except build.Unbuildable:
+                continue
+            if res is None:
+                continue
+            nn += 1
+            ctx.case("named-whole:%r|%r" % (g, s_), len(res[1]) >= 2, True)
+            if res[0] != "ok":
+                # F-05c: a name given to (a wrapper of) a Forward BEFORE the Forward is assigned copies the empty Forward's flags;
+                # does the disagreement disappear when the Forwards are assigned before the named copy is made?
+                def defined_first():
+                    b = build.Builder(env)
+                    for k_ in b.envspec:
+                        b.fwds[k_] = pp.Forward()
+                    for k_, gk in b.envspec.items():
+                        b.fwds[k_] <<= b.build(gk)
+                    r1 = parse_ok(b.build(("name", "q", g)), s_)
+                    v = r1["q"] if r1 is not None and "q" in r1 else None
+                    v = v.as_list() if isinstance(v, pp.ParseResults) else v
+                    return (len(res[1]) < 2 or v == res[1]) and (len(res[1]) != 1 or v in (res[1][0], res[1]))
+                early = "('fwd'," in repr(g) and guarded(defined_first, 2.0) is True
+                # F-05d: an unnamed Located returns the three tokens [start, tokens, end] flat while its saveAsList is that of its
+                # content (False for a token), so a name on an enclosing alternation / wrapper reports only `start`
+                loc3 = (not early) and "('located'," in repr(g) and res[0] == "multi" and isinstance(res[1][0], int) and res[2] == res[1][0]
+                ctx.violation("named-whole:forward-named-before-assignment" if early else
+                              "named-whole:unnamed-located-returns-three-tokens" if loc3 else "named-whole:%r|%r" % (g, s_), "%r('q') on %r: the element alone returns %r but results['q'] is %r (%s)" % (
+                    g, s_, res[1], res[2], res[0]), {"kind": "named-whole", "grammar": g, "env": env, "input": s_})
+    ctx.stat("named_whole_cases", nn)
     # (iii) the same name bindings with packrat on: alternatives sharing a named prefix re-use cached results
     from tools.props import c02
     pgroups = []
@@ -287,6 +350,15 @@ def replay(ctx, obj):
         for k, what in bad:
             print(k, "::", what)
         return not bad
+    if r.get("kind") == "named-whole":
+        import pyparsing as pp
+        g, env = _tuplify(r["grammar"]), {int(k): _tuplify(v) for k, v in (r.get("env") or {}).items()}
+        T = parse_ok(build.Builder(env).build_all(g), r["input"]).as_list()
+        r1 = parse_ok(build.Builder(env).build_all(("name", "q", g)), r["input"])
+        v = r1["q"] if r1 is not None and "q" in r1 else None
+        v = v.as_list() if isinstance(v, pp.ParseResults) else v
+        print("element alone:", T, " results['q']:", v)
+        return (len(T) < 2 or v == T) and (len(T) != 1 or v in (T[0], T))
     if r.get("kind") == "packrat-names":
         g, env = _tuplify(r["grammar"]), {int(k): _tuplify(v) for k, v in (r.get("env") or {}).items()}
         a = pcommon.single(g, env, r["input"], ("none",), ("parse", False))
